@@ -51,7 +51,7 @@ func genC17(rt *rapid.T, transports []string, maxClients, maxOps int) *c17Case {
 		cl := c17Client{Transport: rapid.SampledFrom(transports).Draw(rt, "transport")}
 		k := rapid.IntRange(1, maxOps).Draw(rt, "nops")
 		for j := 0; j < k; j++ {
-			cl.Ops = append(cl.Ops, rapid.SampledFrom([]string{"m", "m", "q", "n"}).Draw(rt, "op"))
+			cl.Ops = append(cl.Ops, rapid.SampledFrom([]string{"m", "m", "q", "n", "M", "Q", "N"}).Draw(rt, "op"))
 		}
 		c.Clients = append(c.Clients, cl)
 	}
